@@ -256,12 +256,29 @@ mod verif_c13 {
             _ => RecordName::ColorBlue,
         };
         let mut pc = PointCloud::default();
-        pc.prototype = vec![Record { name, data_type: dt }];
-        let none = || -> Option<RecordValue> { None };
+        // the other three attributes are present too, each with its own distinct type range and limits, so that a
+        // mix-up between channels (wrong record, wrong limit pair) cannot go unnoticed
+        let other = |k: i64| RecordDataType::Integer { min: 1000 * k, max: 1000 * k + 7 };
+        let names = [RecordName::Intensity, RecordName::ColorRed, RecordName::ColorGreen, RecordName::ColorBlue];
+        let mut proto: Vec<Record> = Vec::with_capacity(4);
+        let mut idx = 0;
+        while idx < 4 {
+            if idx == WHICH as usize {
+                proto.push(Record { name: names[idx].clone(), data_type: dt.clone() });
+            } else {
+                proto.push(Record { name: names[idx].clone(), data_type: other(idx as i64 + 1) });
+            }
+            idx += 1;
+        }
+        core::mem::forget(name);
+        pc.prototype = proto;
+        let lim = |k: i64| -> Option<RecordValue> { Some(RecordValue::Integer(5000 * k)) };
         if WHICH == 0 {
             pc.intensity_limits = Some(IntensityLimits { intensity_min: lmin, intensity_max: lmax });
+            pc.color_limits = Some(ColorLimits { red_min: lim(1), red_max: lim(2), green_min: lim(3), green_max: lim(4), blue_min: lim(5), blue_max: lim(6) });
         } else {
-            let mut cl = ColorLimits { red_min: none(), red_max: none(), green_min: none(), green_max: none(), blue_min: none(), blue_max: none() };
+            pc.intensity_limits = Some(IntensityLimits { intensity_min: lim(7), intensity_max: lim(8) });
+            let mut cl = ColorLimits { red_min: lim(1), red_max: lim(2), green_min: lim(3), green_max: lim(4), blue_min: lim(5), blue_max: lim(6) };
             match WHICH {
                 1 => {
                     cl.red_min = lmin;
@@ -303,7 +320,7 @@ mod verif_c13 {
 
     // attribute absent => no range => normalisation yields 0 (normalize_value's None branch is covered under C05)
     #[kani::proof]
-    #[kani::unwind(4)]
+    #[kani::unwind(6)]
     #[kani::stub(alloc::fmt::format, stub_format)]
     fn c13_o5_absent_attribute() {
         let mut pc = PointCloud::default();
